@@ -90,25 +90,28 @@ CORE_TYPES = ('Int', 'Numeric', 'Text', 'Bool', 'Date', 'DateTime', 'ChoiceList'
 
 
 def relevant(types, v):
-  """Types for which a value of this kind exercises the interesting branches."""
+  """The types whose conversion has a branch of its own for a value of this kind (all of them are tried with
+  every listed edge value, also in the quick tier)."""
   import datetime
   import records
   if isinstance(v, str):
     s = v.strip()
     if s[:1] == '[' or s.startswith('RecordList'):
-      names = ('ChoiceList', 'ReferenceList', 'Attachments')
-    elif s[:4].isdigit() and len(s) >= 8:
-      names = ('Date', 'DateTime', 'Int', 'Numeric')
+      names = ('ChoiceList', 'ReferenceList')
+    elif s[:4].isdigit() and len(s) >= 8 and not s.isdigit():
+      names = ('Date', 'DateTime')
+    elif s.lower() in ('true', 'false', 'yes', 'no', 'y', 'on') or not s.isascii():
+      names = ('Bool', 'Numeric')
     else:
-      names = ('Int', 'Numeric', 'Bool', 'PositionNumber', 'Text', 'Date')
+      names = ('Int', 'Numeric', 'Bool', 'PositionNumber')
   elif isinstance(v, (int, float)):
-    names = ('Int', 'Numeric', 'Text', 'Bool', 'Date', 'DateTime', 'Id', 'PositionNumber', 'Reference')
+    names = ('Int', 'Numeric', 'Text', 'Bool', 'Id')
   elif isinstance(v, (datetime.date,)):
     names = ('Date', 'DateTime', 'Text')
   elif isinstance(v, (records.Record, records.RecordSet, list, tuple)):
     names = ('Id', 'Reference', 'ReferenceList', 'Attachments', 'ChoiceList')
   elif isinstance(v, bytes):
-    names = ('Text', 'Blob', 'Int', 'Numeric', 'ChoiceList')
+    names = ('Text', 'Blob', 'Int')
   else:
     names = CORE_TYPES
   return [T for T in types if type(T).__name__ in names]
@@ -141,8 +144,10 @@ def gen_cases(ctx):
     ctx.extra['exhaustive_space'] = 'all %d type objects x all %d listed edge values' % (len(types), len(edge))
   else:
     for v in edge:
-      for T in [rng.choice(relevant(types, v)), rng.choice(types)]:
-        out.append((T, v))
+      for T in relevant(types, v):
+        if type(T).__name__ != 'DateTime' or T._verif_zone in ('America/New_York', 'Nowhere/Land'):
+          out.append((T, v))
+      out.append((rng.choice(types), v))
   return out
 
 
